@@ -55,6 +55,7 @@ type Leaf struct {
 	Reached  []string
 	Effects  []string
 	GWrites  []string
+	DetObs   []Obs
 }
 
 type Path struct {
@@ -100,6 +101,7 @@ type Path struct {
 	obligs      []*Oblig
 	keptUnknown int
 	inInit      bool
+	detObs      []Obs
 	exactTables bool
 	unwindAssume bool
 	effectArgs  [][]*Term
@@ -305,6 +307,7 @@ func (p *Path) execute() (leaf *Leaf) {
 		leaf.Reached = p.reached
 		leaf.Effects = p.effects
 		leaf.GWrites = p.gwrites
+		leaf.DetObs = p.detObs
 	}()
 	p.runInit()
 	p.callFunction(p.ex.harness, nil, nil)
@@ -707,9 +710,9 @@ func solveModelB(ss *SolverSet, base []*Term, names []string, nts []*Term, extra
 	sampled := false
 	for level := 0; level <= 2; level++ {
 		var pins []*Term
-		if level == 1 && !sampled {
-			// the solvers did not produce a model over the preferred inputs: sample that finite
-			// domain directly and validate each candidate with the native evaluator
+		if level == 0 && !sampled {
+			// cheap first attempt: sample the finite domain of preferred inputs and validate each
+			// candidate with the native evaluator; the solvers take over when this finds nothing
 			sampled = true
 			if m, ex, ok := sampleModel(base, nts, extra, 4000); ok {
 				res.Status = "sat"
@@ -969,7 +972,7 @@ func solveByComponents(ss *SolverSet, asserts []*Term, allVars []*Term, to int, 
 	return out
 }
 
-var sampleStrings = []string{"a", "b", "c", "d", "x", "y", "p", "q", "", "\n", "a\nb", "\"", "`", "\\", "a/d", "b/d", "c/d", " ", "1", "a1", "//", "/*", "*/", "\xff", "\x00"}
+var sampleStrings = []string{"a", "b", "c", "d", "x", "y", "p", "q", "", "\n", "a\nb", "\"", "`", "\\", "a/d", "b/d", "c/d", "/d", "/go", " ", "1", "a1", "//", "/*", "*/", "\xff", "\x00"}
 var sampleInts = []string{"0", "1", "2", "3", "255", "-1", "65", "128", "1000000", "4607182418800017408"}
 
 // sampleModel searches the finite domain of preferred inputs for an assignment that makes every
@@ -987,10 +990,32 @@ func sampleModel(base []*Term, nts []*Term, extra []*Term, tries int) ([]string,
 	for _, t := range nts {
 		named[t] = true
 	}
-	for v := range vars {
-		if !named[v] {
-			return nil, nil, false // witnesses introduced by the encoding cannot be sampled
+	// conjuncts over witnesses introduced by the encoding cannot be evaluated: they are left out here
+	// (a sampled model is only ever a candidate; it is replayed against the compiled code)
+	{
+		var kept []*Term
+		for _, a := range base {
+			ok := true
+			for _, id := range termFV(a) {
+				if id > 0 {
+					found := false
+					for t := range named {
+						if t.id == id {
+							found = true
+							break
+						}
+					}
+					if !found {
+						ok = false
+						break
+					}
+				}
+			}
+			if ok {
+				kept = append(kept, a)
+			}
 		}
+		base = kept
 	}
 	h := uint64(1469598103934665603)
 	for _, t := range nts {
@@ -999,6 +1024,21 @@ func sampleModel(base []*Term, nts []*Term, extra []*Term, tries int) ([]string,
 	next := func(n int) int {
 		h = h*6364136223846793005 + 1442695040888963407
 		return int((h >> 33) % uint64(n))
+	}
+	if os.Getenv("GOSMT_DEBUG_SAMPLE") != "" {
+		env := newEvalEnv()
+		for _, t := range nts {
+			switch t.Sort {
+			case SStr:
+				env.vars[t] = "s:/d"
+			case SBool:
+				env.vars[t] = "false"
+			default:
+				env.vars[t] = "0"
+			}
+		}
+		all, ok, ff := env.evalAll(base)
+		fmt.Fprintf(os.Stderr, "sample debug: %d conjuncts, named=%d all=%v ok=%v firstFalse=%v\n", len(base), len(nts), all, ok, ff)
 	}
 	for try := 0; try < tries; try++ {
 		env := newEvalEnv()
